@@ -13,7 +13,7 @@ G = dict(file=IMPL, members=['hp'],
          methods={'get': 'MP_get', 'reset': 'MP_reset', 'set_object': 'HP_set_object',
                   'alloc_hazard_pointer': 'TD_alloc_hazard_pointer', 'release_hazard_pointer': 'TD_release_hazard_pointer',
                   'add_retired_node': 'TD_add_retired_node', 'scan': 'TD_scan', 'set_deleter': 'OBJ_set_deleter'},
-         self_calls={'reset': 'g_reset'}, may_throw=['TD_alloc_hazard_pointer'])
+         self_calls={'reset': 'g_reset', 'swap': 'g_swap'}, may_throw=['TD_alloc_hazard_pointer'])
 S = dict(file=IMPL, members=['value'], methods={'mark': 'SV_mark', 'get': 'SV_get'},
          types={'void**': 'uintptr_t', 'hazard_pointer*': 'struct hp_slot*', 'detail::deletable_object*': 'uintptr_t'},
          self_calls={'is_link': 'hp_is_link'})
